@@ -14,6 +14,7 @@ import (
 	"sort"
 	"strconv"
 	"strings"
+	"sync"
 	"unicode/utf8"
 
 	"github.com/hneemann/parser2/funcGen"
@@ -54,15 +55,31 @@ func runExtract() {
 		json.Unmarshal(data, &owners)
 	}
 	var failures []map[string]any
+	// the children run side by side (each writes its own files), their results are handled in order
+	type childResult struct {
+		err  error
+		errb strings.Builder
+	}
+	results := make([]childResult, len(extractors))
+	var wg sync.WaitGroup
+	os.MkdirAll(filepath.Join(verifRoot, ".work"), 0o755)
 	for i := range extractors {
 		ownedFile := filepath.Join(verifRoot, ".work", "extract_owned_"+strconv.Itoa(i)+".txt")
-		os.MkdirAll(filepath.Join(verifRoot, ".work"), 0o755)
 		os.Remove(ownedFile)
-		cmd := exec.Command(os.Args[0], "extract", strconv.Itoa(i))
-		cmd.Env = append(os.Environ(), "VERIF_EXTRACT_OWNED="+ownedFile)
-		var errb strings.Builder
-		cmd.Stderr = &errb
-		err := cmd.Run()
+		wg.Add(1)
+		go func(i int, ownedFile string) {
+			defer wg.Done()
+			cmd := exec.Command(os.Args[0], "extract", strconv.Itoa(i))
+			cmd.Env = append(os.Environ(), "VERIF_EXTRACT_OWNED="+ownedFile)
+			cmd.Stderr = &results[i].errb
+			results[i].err = cmd.Run()
+		}(i, ownedFile)
+	}
+	wg.Wait()
+	for i := range extractors {
+		ownedFile := filepath.Join(verifRoot, ".work", "extract_owned_"+strconv.Itoa(i)+".txt")
+		err := results[i].err
+		errb := &results[i].errb
 		var mine []string
 		if data, e := os.ReadFile(ownedFile); e == nil {
 			for _, l := range strings.Fields(string(data)) {
